@@ -1,3 +1,12 @@
 #include "verif.h"
 #include "substdio.h"
-void blast(substdio *ss, unsigned long limit) { }
+extern int g_fd_open, g_blasted, g_closed_fd; extern substdio ssmsg; extern char ssmsgbuf[1024]; extern unsigned long g_limit_seen;
+/* blast() has its own proof (pop3_blast); here: what pop3_top hands to it */
+void blast(substdio *ss, unsigned long limit)
+{
+  V_ASSERT(ss == &ssmsg && g_fd_open && !g_blasted, "C19: RETR/TOP transmit the file just opened, once");
+  V_ASSERT(ssmsg.fd == 7 && ssmsg.x == ssmsgbuf && ssmsg.n == (int)sizeof ssmsgbuf, "C19: the message is read from the descriptor just opened, through the message buffer");
+  V_ASSERT(ssmsg.p == 0, "C19: every RETR/TOP starts with an empty read buffer: no bytes left over from an earlier, truncated TOP are sent as part of this message");
+  g_blasted = 1; g_limit_seen = limit;
+}
+int close(int fd) { V_ASSERT(fd == 7 && g_blasted && !g_closed_fd, "C19: supporting: the message file is closed after transmission"); g_closed_fd = 1; return 0; }
